@@ -19,6 +19,7 @@ echo "demo: unchanged rc=$base (want 0)  mutated rc=$withm (want !=0)  suite-wit
 [ $base -eq 0 ] && [ $withm -ne 0 ] && [ $suite -eq 0 ] || { echo "NOT CONFIRMED"; tail -n 5 /tmp/seed_suite.log; exit 4; }
 git -C /repo apply $mut/patch.diff || exit 3
 cd /verif
+export VERIF_EVIDENCE_DIR=/tmp/seed-evidence   # evidence of runs against a seeded change must not replace the committed evidence
 for c in $checks; do
   out=$(timeout 1500 ./check $c 2>&1); rc=$?
   echo "check $c rc=$rc : $(echo "$out" | grep -c '^VIOLATION') violation lines; $(echo "$out" | grep '^VIOLATION' | head -1)"
